@@ -11,6 +11,18 @@ model and with refimpl.Root (independent implementation of the protocol definiti
 model state diffs split into blocks in different ways through Blockchain.Finalise on both state
 backends and both sides of 0.14.0 against refimpl.GlobalRoot; block commitments (transactions,
 events, receipts) through both temporary-trie backends.
+
+Value domain (FeltDomain.tla, PedersenWin.tla): every behaviour carries a magnitude class per abstract
+value / class hash / compiled class hash / nonce ({small, 1, >= 2^248, >= 2^250, >= 2^251, p-1}) that the
+replayers concretise, so extreme felts reach every operand position of the commitments; the reference
+commitments are computed with INDEPENDENT hash primitives (harness/internal/refcrypto: textbook elliptic
+curve arithmetic / gnark-crypto for Pedersen, Hades from derived round constants for Poseidon), a root that
+equals the definition evaluated with core/crypto instead is keyed crypto:*; TestCryptoDiff compares every
+core/crypto hash function with the references on boundary operands directly; PedersenWin.tla is the
+exhaustively checked transcription of the table/mask algorithm against the definition.
+Read faults (StateCommit.tla ReadFault / FailedUpdateIsNoOp): blocks the model marks are applied once per
+storage-read position with that read failing, on a copy of the node: a failed update is fine, a successful
+one and the fault-free retry must store the reference commitment.
 """
 import json
 import vlib
@@ -30,6 +42,8 @@ def tlc_part(ctx, thorough):
     # the repaired trie2 design satisfies everything, including "no orphan database entries"
     ctx.tlc_check("trie", "Trie2.tla", "Trie2_thorough.cfg" if thorough else "Trie2_quick.cfg", timeout=3000)
     ctx.tlc_check("trie", "StateCommit.tla", "State_thorough.cfg" if thorough else "State_quick.cfg", timeout=3000)
+    # the hash primitive's table / mask algorithm against its definition, every operand magnitude (scaled-down field)
+    ctx.tlc_check("trie", "PedersenWin.tla", "Pedersen_thorough.cfg" if thorough else "Pedersen_quick.cfg", timeout=600)
     # The registered Trie2 model is the repaired one (FixValueDeletePath = TRUE; trie.go:511 fixed by 85c68cc and
     # listed as `fixed`): expectations never depend on the tree under test. A tree that still has the defect
     # diverges from it (trie2-orphan-leaf:* / trie2-db:orphans-differ-from-model).
@@ -45,7 +59,13 @@ def tlc_part(ctx, thorough):
                               ("LegacyTrie.tla", "Legacy_quick.cfg", "nodirty-on-split"),
                               ("Trie2.tla", "Trie2_quick.cfg", "keep-flags-on-insert"),
                               ("Trie2.tla", "Trie2_quick.cfg", "forget-edge-delete"),
-                              ("Trie2.tla", "Trie2_quick.cfg", "FixValueDeletePath")):
+                              ("Trie2.tla", "Trie2_quick.cfg", "FixValueDeletePath"),
+                              ("StateCommit.tla", "State_quick.cfg", "root-read-fault-as-empty"),
+                              ("PedersenWin.tla", "Pedersen_quick.cfg", "mask-a-drops-top-bit"),
+                              ("PedersenWin.tla", "Pedersen_quick.cfg", "mask-b-drops-top-bit"),
+                              ("PedersenWin.tla", "Pedersen_quick.cfg", "low-windows-short"),
+                              ("PedersenWin.tla", "Pedersen_quick.cfg", "b-low-uses-a-table"),
+                              ("PedersenWin.tla", "Pedersen_quick.cfg", "high-table-off-by-one")):
             with open(vlib.VERIF + "/spec/trie/" + cfg) as f:
                 text = f.read()
             if bug == "FixValueDeletePath":   # the pre-fix behaviour must violate NoOrphans
@@ -72,6 +92,11 @@ def run(ctx):
 
     guards = Guards()
 
+    # ---- 0. the hash primitives themselves, boundary-heavy operands against the independent references
+    res = safe_engine(ctx, binary, "TestCryptoDiff", {}, "trie", guards)
+    guards.require(res.get("steps", 0) > 2000 or ctx.violations, "crypto differential round compared only %s hashes" % res.get("steps"))
+    ctx.coverage["hashes_compared"] = res.get("steps", 0)
+
     # ---- 2. replay on the real tries
     nruns = 10 if thorough else 2
     per_run = 120 if thorough else 60
@@ -84,6 +109,8 @@ def run(ctx):
             continue
         res = safe_engine(ctx, binary, "TestTrieReplay", {"kind": kind, "h": 5, "behaviours": behaviours}, "trie", guards)
         guards.require(res.get("steps", 0) > 500 or ctx.violations, "trie replay (%s) executed only %s steps" % (kind, res.get("steps")))
+        extreme = sum(v for k, v in res.get("stats", {}).items() if k.startswith("trie_%s_mag-" % kind) and k.rsplit("-", 1)[1] in ("b251", "pm1"))
+        guards.require(extreme > 0 or ctx.violations, "no %s behaviour carried a value with bit 251 set" % kind)
         ctx.coverage["behaviours_" + kind] = len(behaviours)
         ctx.coverage["steps_replayed_" + kind] = res.get("steps", 0)
 
@@ -95,6 +122,9 @@ def run(ctx):
     res = safe_engine(ctx, binary, "TestStateReplay", {"behaviours": sbeh}, "trie", guards)
     guards.require(res.get("steps", 0) > 100 or ctx.violations, "state replay finalised only %s blocks" % res.get("steps"))
     guards.require(res.get("stats", {}).get("state_restarts", 0) > 0 or ctx.violations, "no restart was replayed at the state level")
+    guards.require(res.get("stats", {}).get("state_read_fault_rejected", 0) > 20 or ctx.violations,
+                   "only %s block applications met an injected read fault" % res.get("stats", {}).get("state_read_fault_rejected"))
+    ctx.coverage["read_fault_attempts"] = res.get("stats", {}).get("state_read_fault_attempts", 0)
     ctx.coverage["behaviours_state"] = len(sbeh)
     ctx.coverage["blocks_finalised"] = res.get("steps", 0)
 
@@ -117,7 +147,10 @@ def run(ctx):
         ctx.include("G05", accept=lambda k: "wrong-state-root" in k or k.startswith("crash:"),
                     why="state roots of blocks applied on a database upgraded by the head-state migration (lazy storage-root backfill)")
     ctx.assumptions += [
-        "core/crypto Pedersen/Poseidon and core/felt are trusted (known-answer tested upstream); hashes are injective terms in the specifications",
+        "core/felt (field arithmetic, serialisation) and gnark-crypto's curve/field arithmetic are trusted; core/crypto's Pedersen / Poseidon are NOT: "
+        "the references are a textbook math/big evaluation, gnark-crypto's pedersen-hash cross-validated against it, and Hades from derived constants; "
+        "hashes are injective terms in the trie / state specifications",
+        "read faults: a failing read returns an error other than not-found; only single faults per block application; the update may fail",
         "callers commit a trie before dropping it (deprecatedstate closers, state.Commit); Reopen is only taken from a committed trie",
         "universality over 251-bit keys rests on the algorithms being height-generic; height 251 is exercised through the embedding",
     ]
@@ -130,4 +163,7 @@ def run(ctx):
         "state level: TLC-simulated StateCommit.tla update sequences (deploy / replace / nonce / storage incl. zero writes and "
         "adjacent slots / declare / system contract) through Blockchain.Finalise on both state backends x {0.13.2, 0.14.0, "
         "0.13.4->0.14.1} x three block splits, every block root against refimpl.GlobalRoot; directed: height-64 temporary "
-        "tries of 17+ sizes and whole-block commitments through both TempTrieBackends, bulk batches > 100 updates")
+        "tries of 17+ sizes and whole-block commitments through both TempTrieBackends, bulk batches > 100 updates; value domain: a "
+        "magnitude class per abstract value / class hash / compiled hash / nonce chosen by the generators, references on independent "
+        "primitives, direct differential round over every ordered pair of boundary operands and every class in every array position "
+        "(lengths 0..5); read faults: blocks marked by the model applied once per read position with that read failing")
